@@ -58,6 +58,20 @@ type Input struct {
 	O    Opts     `json:"o"`
 	Join Join     `json:"join"`
 	Hm   Mutant   `json:"hm"` // hostile step (C04)
+	// With: an input submitted concurrently with a closerouter / rmrealm step (C06)
+	With *Input `json:"with,omitempty"`
+	// Gate: hold the concurrently joining session's attach goroutine at the
+	// verif gate before its WELCOME until the shutdown has run as far as it can
+	Gate bool `json:"gate"`
+	// Prog: the programs of a burst step (C07/C08): every listed session sends
+	// its inputs in order, all sessions concurrently, nothing is awaited between
+	Prog []Program `json:"prog"`
+}
+
+// Program is the input sequence of one session in a burst.
+type Program struct {
+	S   string  `json:"s"`
+	Ops []Input `json:"ops"`
 }
 
 // Mutant describes one hostile message (spec/Hostile.tla).
@@ -118,6 +132,7 @@ type Cfg struct {
 	// Template = created from the router's realm template by the first HELLO
 	Late     bool `json:"late"`
 	Template bool `json:"template"`
+	Closed   bool `json:"closed"` // always false in configurations; set by the specification when the realm is closed
 }
 
 // Rule is one authorizer rule: message type, sender class ("any", "local",
@@ -196,6 +211,12 @@ type Event struct {
 	BadIDs int       `json:"badids"`
 	Snap   []SnapKV  `json:"snap"`
 	Gor    int       `json:"gor"`
+	// Ret: the Close / RemoveRealm call of this step had returned at quiescence
+	Ret bool `json:"ret"`
+	// Withc: a concurrent input was submitted during this shutdown step
+	Withc bool `json:"withc"`
+	// AttachErr: Attach returned an error for the joining peer of this step
+	AttachErr bool `json:"attacherr"`
 }
 
 // SnapKV is one table size of the verif snapshot.
